@@ -4,7 +4,7 @@
 cd "$(dirname "$0")/.."
 declare -A ALSO=( [C03-7]="C01" [C03-8]="C01" [C04-4]="C12" [C04-5]="C12" [C05-4]="C06" [C05-5]="C12" [C05-6]="C12" [C07-4]="C14" [C07-6]="C06" [C08-4]="C15" [C08-5]="C15" [C03-4]="C19" [C09-6]="C14" [C17-1]="C09" [C04-3]="C12" [C05-3]="C03 C06" [C13-3]="C01 C03" [C10-3]="C03 C09" [C09-1]="C10" [C02-2]="C01" [C03-2]="C01" [C01-2]="C13" )
 LIST="${@:-$(ls seeded | grep -E '^C[0-9]+-[0-9]+$' | sort)}"
-OUT=seeded/MATRIX.tsv
+OUT=${MATRIX_OUT:-seeded/MATRIX.tsv}
 [ $# -eq 0 ] && printf "seed\tproperty\tcaught_by\tclause\tnot_caught_by\n" > $OUT
 for S in $LIST; do
   P=${S%-*}
